@@ -60,7 +60,7 @@ class Ctx:
         return r
 
     # -- trace validation ---------------------------------------------------------------------------------
-    def validate(self, module, cases, shards=16, timeout=1200, heap='2g', env=None, count_traces=True, group=None):
+    def validate(self, module, cases, shards=16, timeout=1200, heap='2g', env=None, count_traces=True, group=None, cfg=None):
         if self.only is not None:
             if group:
                 keep = {c[group] for c in cases if c['id'] in self.only or any(str(o).startswith(str(c['id'])) for o in self.only)}
@@ -69,7 +69,7 @@ class Ctx:
                 cases = [c for c in cases if c['id'] in self.only or any(str(o).startswith(str(c['id'])) for o in self.only)]
         for c in cases:
             self.case_index[c['id']] = (module, c)
-        r = tlc.validate_cases(module, cases, shards=shards, timeout=timeout, heap=heap, extra_env=env, group=group)
+        r = tlc.validate_cases(module, cases, shards=shards, timeout=timeout, heap=heap, extra_env=env, group=group, cfg=cfg)
         self.states += r['distinct']
         self.transitions += r['generated']
         self.cases += r['cases']
@@ -166,9 +166,12 @@ def main(argv=None):
     cov.update(ctx.extra)
     ev = {'property_id': pid, 'tier': tier, 'seed': int(seed), 'level': level, 'coverage': cov,
           'assumptions': getattr(mod, 'ASSUMPTIONS', []), 'wall_s': round(wall, 2), 'violations': len(violations)}
-    os.makedirs(os.path.join(VERIF, 'evidence'), exist_ok=True)
+    # checks of the specification beyond the listed properties (ids X..) keep their evidence apart from the per-property files
+    extra = pid.startswith('X')
+    evdir = os.path.join(VERIF, 'evidence', 'extra') if extra else os.path.join(VERIF, 'evidence')
+    os.makedirs(evdir, exist_ok=True)
     if not args.replay:
-        with open(os.path.join(VERIF, 'evidence', pid + '.json'), 'w') as f:
+        with open(os.path.join(evdir, pid + '.json'), 'w') as f:
             json.dump(ev, f, indent=1)
     if violations:
         rdir = os.path.join(VERIF, 'evidence', 'replays', pid)
@@ -184,7 +187,7 @@ def main(argv=None):
                        'recorded_cases': recorded}, f, indent=1)
         for v in violations[:25]:
             print('REJECTED', pid, v[0], '::', v[1])
-        print('VIOLATION property=%s replay=%s' % (pid, path))
+        print(('EXTRA-VIOLATION check=%s replay=%s' if extra else 'VIOLATION property=%s replay=%s') % (pid, path))
         return 1
     print('OK %s tier=%s seed=%d cases=%d states=%d skipped=%d wall=%.1fs' % (pid, tier, seed, ctx.cases, ctx.states, ctx.skips, wall))
     return 0
